@@ -547,3 +547,86 @@ Proof.
     + intros x [<-|[]] Hl. exfalso. fold L in Hl. lia.
   - unfold int_arr_at. rewrite mem_upd_other by (try lia; destruct X56, X35, X23; lia). exact Ho6.
 Qed.
+
+(* ------------------------------------------------------------------ termination and permutation, on the C text.
+   With the hypothesis of C18_terminates / C18_runs_reversed on the matcher (cm_ok: spans inside the searched range, non-empty
+   match) the model does not run out of fuel S (end - beg) (DirProps.dir_fix_terminates), so the translated dir_fix RETURNS, within
+   that many iterations and nested calls, and what it leaves in the order array is a permutation of what it found there
+   (DirProps.dir_fix_perm = C18_permutation_fix). *)
+Theorem tr_dir_fix_total ext FUEL d (m : mem) sb s cb chrs rslr rsrl raw g ord dir b e N :
+  dir_world m sb s cb chrs rslr rsrl -> oracle_ok ext s chrs rslr rsrl raw -> raw_ok rslr rsrl raw ->
+  cm_ok (dir_match s chrs raw) N -> (e <= N)%nat -> (N < length chrs)%nat -> (N <= length ord)%nat ->
+  int_arr_at m g (map Z.of_nat ord) -> ints_ok (map Z.of_nat ord) -> ~ In g (world_blocks sb cb) ->
+  (S (e - b) < FUEL)%nat -> (length s < FUEL)%nat -> (N < FUEL)%nat ->
+  exists ord' m',
+    dir_fix (dir_match s chrs raw) (S (e - b)) ord dir b e = Some ord' /\ Permutation ord' ord /\
+    callx ext cprog FUEL (S (S (S (S (S (S (e - b) + d)))))) F_dir_fix
+      [VPtr cb 0; VPtr g 0; VInt dir; VInt (Z.of_nat b); VInt (Z.of_nat e)] m = Ok (VUndef, m') /\
+    mem_ext m m' [g] /\ int_arr_at m' g (map Z.of_nat ord').
+Proof.
+  intros W Hor Hraw Hcm HeN HNc HNo Ho Hi Hgw Hf1 Hf2 Hf3.
+  destruct (dir_fix_terminates _ N Hcm (S (e - b)) ord dir b e HeN ltac:(lia)) as [ord' Hfix].
+  destruct (tr_dir_fix ext FUEL (S (e - b)) d m sb s cb chrs rslr rsrl raw g ord dir b e N ord' W Hor Hraw Hcm HeN HNc HNo Ho Hi Hgw Hf1 Hf2 Hf3 Hfix)
+    as [m' [E [X O]]].
+  exists ord', m'. split; [exact Hfix|]. split; [exact (dir_fix_perm _ _ _ _ _ _ _ Hfix)|]. auto.
+Qed.
+
+(* ------------------------------------------------------------------ a table oracle (for the Examples: the hypotheses about the
+   oracle are satisfiable by a matcher that does match).  rset_find is answered by looking the string it is handed up in a table
+   (string -> index of the mark, offsets); the matcher function the model is run with looks the same table up with the text
+   between chrs[b] and chrs[e]. *)
+Fixpoint read_cstr (blk : list val) : list Z :=
+  match blk with VInt z :: r => if z =? 0 then [] else z :: read_cstr r | _ => [] end.
+Fixpoint tab_lookup (k : list Z) (tab : list (list Z * rawres)) : option rawres :=
+  match tab with
+  | [] => None
+  | (k', a) :: r => if list_eq_dec Z.eq_dec k k' then Some a else tab_lookup k r
+  end.
+Definition tab_ext (tab : list (list Z * rawres)) (f : nat) (args : list val) (m : mem) : res (val * mem) :=
+  if negb (Nat.eqb f X_rset_find) then Err EShape else
+  match args with
+  | [_; VPtr sb 0; VInt 16; VPtr gb 0; VInt _] =>
+      match nth_error m sb with
+      | Some blk => match tab_lookup (read_cstr blk) tab with
+                    | Some (found, subs) => Ok (VInt (Z.of_nat found), CLiteProps.upd m gb (map VInt (subs_cells subs)))
+                    | None => Ok (VInt (-1), m)
+                    end
+      | None => Err EOob
+      end
+  | _ => Err EShape
+  end.
+Definition tab_raw (tab : list (list Z * rawres)) (rslr rsrl : val) (s : bytes) (chrs : list nat) (b e : nat) (ctx flg : Z) : option rawres :=
+  if is_null (rs_of rslr rsrl ctx) then None else tab_lookup (zb (substr s chrs b e)) tab.
+Definition tab_entry_ok (en : list Z * rawres) : Prop :=
+  let '(_, (found, subs)) := en in
+  (found < length dirmarks)%nat /\ Forall int_ok (subs_cells subs) /\ 0 <= nth 0 subs (-1) /\ 0 <= nth 1 subs (-1).
+
+Lemma read_cstr_ok (t : bytes) rest : nonul t -> read_cstr (cstr_block (zb t) ++ rest) = zb t.
+Proof.
+  induction 1 as [|x t [Hx0 Hx] Ht IH]; [reflexivity|].
+  unfold cstr_block, zb in *. cbn [map app read_cstr]. destruct (Z.eqb_spec (Z.of_N x) 0); [lia|]. rewrite IH. reflexivity.
+Qed.
+Lemma tab_lookup_in k tab a : tab_lookup k tab = Some a -> In (k, a) tab.
+Proof.
+  induction tab as [|[k' a'] r IH]; [discriminate|]. cbn [tab_lookup]. destruct (list_eq_dec Z.eq_dec k k') as [->|Hne].
+  - intro H. injection H as <-. left. reflexivity.
+  - intro H. right. apply IH. exact H.
+Qed.
+
+Lemma tab_oracle_ok tab s chrs rslr rsrl : nonul s -> oracle_ok (tab_ext tab) s chrs rslr rsrl (tab_raw tab rslr rsrl s chrs).
+Proof.
+  intros Hnn m b e ctx strb gb gblk Hbe Hnull [rest P] Hg Hlen Hne.
+  unfold tab_ext, tab_raw. rewrite Nat.eqb_refl, Hnull. cbn [negb]. rewrite P.
+  rewrite (read_cstr_ok _ rest (substr_nonul s chrs b e Hnn)).
+  assert (Hgl : (gb < length m)%nat) by (apply nth_error_Some; congruence).
+  destruct (tab_lookup (zb (substr s chrs b e)) tab) as [[found subs]|].
+  - eexists. split; [reflexivity|]. split; [apply mem_ext_upd; left; reflexivity|apply mem_upd_same; exact Hgl].
+  - exists m. split; [reflexivity|]. split; [apply mem_ext_refl|exact Hg].
+Qed.
+Lemma tab_raw_ok tab s chrs rslr rsrl : Forall tab_entry_ok tab -> raw_ok rslr rsrl (tab_raw tab rslr rsrl s chrs).
+Proof.
+  intros Ht b e ctx flg. unfold tab_raw. split.
+  - intros ->. reflexivity.
+  - intros found subs H. destruct (is_null (rs_of rslr rsrl ctx)); [discriminate|].
+    apply tab_lookup_in in H. rewrite Forall_forall in Ht. exact (Ht _ H).
+Qed.
